@@ -612,7 +612,23 @@ def r7(ctx, F):
                 if rv['k'] == 'agg' and rv['ak'] == 'tuple' and len(rv['ops']) == 2 and all(o['k'] != 'const' and 'BTreeMap' in r.local_ty(o['p']['l']) for o in rv['ops']):
                     kinds = []
                     for o in rv['ops']:
-                        os_ = rfl.origins(o)
+                        # which listing the elements come from: back through the adaptor chain (a filtered copy of a listing is
+                        # still that listing; what a predicate closure captured is consulted, not walked)
+                        os_, work_, seen_ = set(), [o], set()
+                        while work_ and len(seen_) < 100:
+                            cur_ = work_.pop()
+                            if cur_['k'] == 'const':
+                                continue
+                            for x in rfl.origins(cur_):
+                                k_ = (x.kind, str(x.key), x.bb)
+                                if k_ in seen_:
+                                    continue
+                                seen_.add(k_)
+                                os_.add(x)
+                                if x.kind == 'call' and x.bb is not None and not str(x.key).startswith('meta::discover_'):
+                                    args_ = r.blocks[x.bb]['term'].get('args', [])
+                                    if args_:
+                                        work_.append(args_[0])
                         kinds.append('local' if any(x.kind == 'call' and x.key == 'meta::discover_local_with_meta' for x in os_) else
                                      'remote' if any(x.kind == 'call' and x.key == 'meta::discover_remote_with_meta' for x in os_) else '?')
                     d = 'Push' if rfl.cfg.edges_guard(arms['Push'], bi) else 'Pull' if rfl.cfg.edges_guard(arms['Pull'], bi) else '?'
